@@ -20,7 +20,7 @@ var propC06 = &modelProp{
 			W:          map[string]int{"insert": 8, "update": 8, "resave": 1, "delete": 2, "many": 4, "bulk": 2, "insertBad": 3, "updateBad": 3, "manyBad": 3, "insertOther": 1, "query": 2, "reopen": 1},
 			AllowCache: true, AllowCompress: true, AllowAsync: true,
 			MinUnique: 1, MaxUnique: 3, MaxIndexed: 2, CasePaths: 1,
-			ConsPaths: []string{"S", "I64", "F64", "U8", "Pt.F", "In.F", "S2", "F32", "Emb.EN"},
+			ConsPaths: []string{"S", "I64", "F64", "U8", "Pt.F", "In.F", "S2", "F32", "Emb.EN", "T", "In.T"},
 			TinyBias:  70, BigBias: 8, HookBias: 35, RichShape: 5, MaxLeaves: 1,
 		}
 	},
